@@ -353,7 +353,7 @@ func finish(ld *Loaded, db *SpecDB, reports []*FuncReport, groups map[string]*ob
 		case bad.Status == "failed" && confirmed:
 			violations++
 			lines = append(lines, fmt.Sprintf("VIOLATION property=%s replay=%s", prop, replayPath))
-		case baseline[n]:
+		case baseline[n] || movedFromBaseline(baseline, bad):
 			violations++
 			p := writeReplayNote(prop, n, bad, "obligation was discharged on the baseline tree and is not discharged now")
 			lines = append(lines, fmt.Sprintf("VIOLATION property=%s replay=%s no-failing-input-found", prop, p))
@@ -363,6 +363,7 @@ func finish(ld *Loaded, db *SpecDB, reports []*FuncReport, groups map[string]*ob
 		}
 	}
 	// baseline obligations that can no longer be generated
+	var moved []string
 	var missing []string
 	for n := range baseline {
 		if !present[n] {
@@ -370,7 +371,29 @@ func finish(ld *Loaded, db *SpecDB, reports []*FuncReport, groups map[string]*ob
 		}
 	}
 	sort.Strings(missing)
+	// functions that were verified without engine errors in this run
+	cleanFunc := map[string]bool{}
+	for _, r := range reports {
+		if len(r.Unsupported) == 0 && r.Skipped == "" {
+			cleanFunc[r.Key] = true
+		}
+	}
 	for _, n := range missing {
+		// Obligations that are generated per instruction (safety, preconditions of calls,
+		// frame of written arrays, map-insertion invariants) legitimately disappear when the
+		// instruction does (code moved into a helper, a call removed), provided the function
+		// itself was processed completely. Contract clauses (ensures, invariants, callsite,
+		// atreturn, refines, decreases) must still be generated.
+		fn := n
+		if i := strings.Index(n, "/"); i >= 0 {
+			fn = n[:i]
+		}
+		kind := strings.TrimPrefix(n, fn+"/")
+		perInstr := strings.HasPrefix(kind, "safety#") || strings.HasPrefix(kind, "pre@") || strings.HasPrefix(kind, "frame#") || strings.HasPrefix(kind, "mapinv@") || strings.HasPrefix(kind, "closure-pre@") || strings.HasPrefix(kind, "inv-step#") && strings.Contains(kind, ":frame:")
+		if perInstr && cleanFunc[fn] {
+			moved = append(moved, n)
+			continue
+		}
 		violations++
 		p := writeReplayNote(prop, n, nil, "baseline obligation can no longer be generated (function, loop or clause no longer binds): "+strings.Join(engineErrs, "; "))
 		lines = append(lines, fmt.Sprintf("VIOLATION property=%s replay=%s no-failing-input-found", prop, p))
@@ -382,6 +405,7 @@ func finish(ld *Loaded, db *SpecDB, reports []*FuncReport, groups map[string]*ob
 		writeBaseline(prop, groups, names)
 	}
 	evidenceExtra["unreachable_returns"] = deadReturns
+	evidenceExtra["baseline_obligations_no_longer_generated"] = moved
 	writeEvidence(ld, db, reports, prop, total, discharged, violations, undecided, knownHit, quantified, samples, byBackend, solverTime, engineErrs, t0)
 	if total == 0 {
 		fmt.Println("ENGINE: zero obligations generated for", prop)
@@ -396,6 +420,15 @@ func finish(ld *Loaded, db *SpecDB, reports []*FuncReport, groups map[string]*ob
 // matchKnown: a failing obligation is a known finding when every failing path instance
 // matches the path signature of some recorded finding for that (property, obligation);
 // a failure on any other path is still reported.
+// movedFromBaseline: the obligation arose in an un-annotated helper inlined into a function
+// for which the baseline holds the same obligation (code extracted into a helper).
+func movedFromBaseline(baseline map[string]bool, ob *Obligation) bool {
+	if ob == nil || ob.Host == "" || ob.Host == ob.Func {
+		return false
+	}
+	return baseline[fmt.Sprintf("%s/%s#%s", ob.Host, ob.Kind, ob.Label)]
+}
+
 func matchKnown(k KnownFile, prop, name string, g *oblGroup) []*KnownFinding {
 	var cands []*KnownFinding
 	for i := range k.Findings {
@@ -568,6 +601,7 @@ func writeEvidence(ld *Loaded, db *SpecDB, reports []*FuncReport, prop string, t
 		"samples":                  samples,
 		"contract_files":           db.Files,
 		"unreachable_returns":     evidenceExtra["unreachable_returns"],
+		"baseline_obligations_no_longer_generated": evidenceExtra["baseline_obligations_no_longer_generated"],
 		"skipped_functions":       evidenceExtra["skipped"],
 		"explanation":              fmt.Sprintf("contract-based deductive verification: %d named obligations generated by weakest-precondition style symbolic execution over go/ssa for the functions carrying %s clauses, discharged by an SMT portfolio; %d discharged, %d undecided, %d match recorded known findings, %d violations", total, prop, discharged, undecided, knownHit, violations),
 	}
